@@ -142,3 +142,19 @@ def _(cs: "list(Cpg)", off: "list(int)"):
             implies(11 <= len(cs), off[11] == psum(cs, 11)), implies(12 <= len(cs), off[12] == psum(cs, 12)),
             implies(13 <= len(cs), off[13] == psum(cs, 13)), implies(14 <= len(cs), off[14] == psum(cs, 14)),
             implies(15 <= len(cs), off[15] == psum(cs, 15)), implies(16 <= len(cs), off[16] == psum(cs, 16)))
+
+
+# ------------------------------------------------------------------ BOUNDED stand-in (never counted as proved)
+# The frame builder above is verified for any number of groups through two loop invariants tied to the shape of its loops.
+# This variant decides length, padding and content of the frame without invariants, by unrolling, for a frame holding ONE group
+# (stated bound) of any length 0..60 - so a rewrite of the padding loop is still decided.
+@unit("j1939.j1939_22:J1939_22.__send_multi_pg", variant="bounded", bounded="one contained group", props=["C11"])
+def _(self: "J1939_22", frame_format: "int", cpg_list: "list(Cpg)", src_address: "int", dst_address: "int"):
+    requires(lut_ok(self), cpgs_ok(cpg_list), len(cpg_list) == 1, -2**40 <= src_address < 2**40, -2**40 <= dst_address < 2**40)
+    let("n0", len(trace))
+    let("used", 4 + cpg_list[0]['data_length'])
+    modifies(trace)
+    ensures("C11.frame.one.bounded", len(trace) == n0 + 1, trace[-1].fn == self.__send_message)
+    ensures("C11.frame.len.bounded", len(trace[-1].l2) == fd_len(used), len(trace[-1].l2) <= 64)
+    ensures("C11.frame.groups.bounded", group_at_off(trace[-1].l2, cpg_list, 0, 0))
+    ensures("C11.frame.pad.bounded", forall(lambda i: pad_at(trace[-1].l2, used, i), used, len(trace[-1].l2)))
